@@ -119,7 +119,7 @@ func (c *Ctx) vol(quick, thorough int) int {
 func (c *Ctx) count(kind string) { c.dist[kind]++ }
 
 func (c *Ctx) sample(v interface{}) {
-	if len(c.samples) < 6 {
+	if len(c.samples) < 12 {
 		c.samples = append(c.samples, v)
 	}
 }
@@ -141,6 +141,10 @@ func (c *Ctx) Compare(check string, input interface{}, impl, model string) bool 
 		c.corr[check] = st
 	}
 	st.Cases++
+	if st.Cases <= 2 && !c.searchOnly {
+		// the first cases of every correspondence, verbatim, as evidence samples
+		c.sample(map[string]interface{}{"correspondence": check, "case": input, "implementation": clipN(impl, 160), "model": clipN(model, 160)})
+	}
 	if c.searchOnly {
 		return true
 	}
